@@ -60,7 +60,7 @@ def check(repo: Repo) -> Result:
     from rules.ufunc import UfuncAnchors
 
     r7 = res.rule("C08-R7", "the affine map is applied on every conversion route: data * factor, then - offset on the same data, for every dtype (in-place integer readings included)", floor=3)
-    share(res, r7, "C03", lambda t: c03.apply_idiom(repo, t), ["C03-R2"], want=lambda k: k in ("convert_to_units", "in_units", "in_base:result", "in_units:offset-zeroed-only-em"), min_keys=3)
+    share(res, r7, "C03", lambda t: c03.apply_idiom(repo, t), ["C03-R2"], want=lambda k: k in ("convert_to_units", "in_units", "in_base", "in_base:result", "in_units:offset-zeroed-only-em"), min_keys=4)
     r8 = res.rule("C08-R8", "== and != answer all-False / all-True only for the dimension errors; the refusal of two different offset scales (InvalidUnitOperation) propagates", floor=2)
     share(res, r8, "C01", lambda t: c01.eq_ne(repo, t, UfuncAnchors(repo)), ["C01-R3"], want=lambda k: k in ("__eq__", "__ne__"), min_keys=2)
     return res
@@ -449,4 +449,6 @@ MUTANTS = [
     Mutant("mul-offset-from-dimensionless-side", UO, "Unit.__mul__", "            if u.dimensions in (temperature, angle) and self.is_dimensionless:\n                base_offset = u.base_offset", "            if u.dimensions in (temperature, angle) and self.is_dimensionless:\n                base_offset = self.base_offset", ("C08-R2",)),
     Mutant("setstate-skips-fixer", ARR, "unyt_array.__setstate__", "lut = _correct_old_unit_registry(lut)", "lut = _correct_old_unit_registry(lut) if any(len(v) == 4 for v in lut.values()) else lut", ("C08-R6",)),
     Mutant("eq-swallows-every-unyt-error", ARR, "unyt_array.__eq__", "except (IterableUnitCoercionError, UnitOperationError):", "except UnytError:", ("C08-R8",)),
+    Mutant("in-base-offset-from-source", ARR, "unyt_array.in_base", "        ret = self.v * conv\n        if offset:", "        ret = self.v * conv\n        if self.units.base_offset:", ("C08-R7",)),
+    Mutant("preserve-returns-second-label", ARR, "_preserve_units", "        return 1, unit2\n    return 1, unit1", "        return 1, unit2\n    return 1, unit2", ("C08-R5",)),
 ]
